@@ -225,8 +225,9 @@ def step (s : St) (op impl : String) : St × StepOut :=
     let irs := implRecords impl
     let mut g := s.g
     g := { g with sent := g.sent ++ (irs.map recBytes).flatten }
-    let rwOp := ["wh", "w", "fl", "fle", "ft", "finish"].contains head
-    if rwOp then
+    -- what a handler can reach: Header / WriteHeader / Write / Flush, then the server's tail (`finish`)
+    let rwOp := ["wh", "w", "fl", "fle", "finish"].contains head
+    if rwOp && !g.finishSeen then
       g := { g with usedRW := true }
       for r in irs do
         let k := recKind r
@@ -288,7 +289,7 @@ def step (s : St) (op impl : String) : St × StepOut :=
       let ie := iw.getD 1 "-"
       if g.termErr && !id.isEmpty then
         fails := fails ++ [("nothing_after_error", "-", s!"{id.length} bytes returned after a terminal error")]
-      if !g.desync && !g.rawOps then
+      if !g.desync && !g.rawOps && !g.anyErr then
         match stripPrefix id g.restExp with
         | some rest => g := { g with restExp := rest }
         | none =>
@@ -305,7 +306,10 @@ def step (s : St) (op impl : String) : St × StepOut :=
             fails := fails ++ [("forbidden_frame_error", "-", s!"clean EOF although the stream carries reserved frame type {t}")]
           | .afterTrailers t =>
             fails := fails ++ [("forbidden_frame_error", "-", s!"clean EOF although frame type {t} follows the trailers")]
-          | .illPlaced _ => pure ()
+          | .illPlaced t =>
+            -- listed known finding: a SETTINGS / GOAWAY frame on a request stream whose payload is
+            -- truncated or malformed surfaces as io.EOF instead of H3_FRAME_UNEXPECTED
+            fails := fails ++ [("forbidden_frame_error", "illplaced_control_frame_eof", s!"clean EOF although the stream carries frame type {t}, which is not allowed on a request stream")]
           | _ =>
             if !g.restExp.isEmpty && !(g.hasCL && s.readerVia) then
               fails := fails ++ [("reassembly_complete", "-", s!"EOF after {g.gotLen} bytes, the stream carries {g.sp.payload.length} DATA payload bytes")]
@@ -326,7 +330,8 @@ def step (s : St) (op impl : String) : St × StepOut :=
             if ie != "E:eof" && rcc != "261" && !(g.hasCL && s.readerVia) then
               fails := fails ++ [("forbidden_frame_error", "-", s!"reserved frame type {t}: error {ie} but connection close code {rcc}")]
           | _ => pure ()
-        if isTerminalErr ie || rcc != "-" then g := { g with termErr := true }
+        let eofNoEnd := ie == "E:eof" && (!g.finSeen || (match g.sp.ending with | .illPlaced _ => true | _ => false))
+        if (isTerminalErr ie && !eofNoEnd) || rcc != "-" then g := { g with termErr := true }
         g := { g with anyErr := true, emptyRun := 0 }
       else if ie == "-" && n > 0 && id.isEmpty then
         g := { g with emptyRun := g.emptyRun + 1 }
